@@ -865,3 +865,163 @@ impl Drop for StdoutSilencer {
         }
     }
 }
+
+// ---------------------------------------------------------------------------------------------
+// byte-driven entry points (coverage-guided fuzzing): the fuzzer's bytes are the random stream of the SAME
+// proptest strategy the search uses (RngAlgorithm::PassThrough), so a fuzz input decodes to an ordinary Case
+// and the same oracle decides it.
+
+use proptest::strategy::ValueTree;
+use proptest::test_runner::TestRng;
+
+fn tree_from_bytes<P: Property>(strategy: &BoxedStrategy<P::Case>, data: &[u8]) -> Option<Box<dyn ValueTree<Value = P::Case>>> {
+    let cfg = Config { failure_persistence: None, max_local_rejects: 256, max_global_rejects: 256, ..Config::default() };
+    let rng = TestRng::from_seed(RngAlgorithm::PassThrough, data);
+    let mut runner = TestRunner::new_with_rng(cfg, rng);
+    strategy.new_tree(&mut runner).ok()
+}
+
+/// Counters kept by a fuzz closure and dumped to `$VERIF_FUZZ_STATS` every 4096 inputs and at each failure.
+#[derive(Default, serde::Serialize)]
+pub struct FuzzStats {
+    pub inputs: u64,
+    pub decoded: u64,
+    pub pass: u64,
+    pub nontrivial: u64,
+    pub distinct_nontrivial: u64,
+    pub discard: u64,
+    pub known_excluded: u64,
+    pub failures: u64,
+    pub labels: BTreeMap<String, u64>,
+}
+
+/// Build the per-process fuzz closure for property P.  It returns true when the input is a violation
+/// (unknown failing signature); the fuzz target then aborts so the fuzzer keeps the input.
+pub fn make_fuzzer<P: Property>() -> Box<dyn FnMut(&[u8]) -> bool> {
+    std::panic::set_hook(Box::new(|_| {}));
+    let strategy = P::strategy(Tier::Quick);
+    let known = load_known(P::ID);
+    let _silence = if P::quiet_stdout() { Some(StdoutSilencer::new()) } else { None };
+    let stats_path = std::env::var("VERIF_FUZZ_STATS").ok();
+    let mut st = FuzzStats::default();
+    let mut seen: HashSet<u64> = HashSet::new();
+    Box::new(move |data: &[u8]| {
+        let _keep = &_silence;
+        st.inputs += 1;
+        let dump = |st: &FuzzStats| {
+            if let Some(p) = &stats_path {
+                let _ = std::fs::write(p, serde_json::to_string(st).unwrap());
+            }
+        };
+        if st.inputs % 4096 == 0 {
+            dump(&st);
+        }
+        let Some(tree) = tree_from_bytes::<P>(&strategy, data) else { return false };
+        st.decoded += 1;
+        let case = tree.current();
+        match checked::<P>(&case) {
+            Verdict::Pass(p) => {
+                st.pass += 1;
+                for l in &p.labels {
+                    *st.labels.entry(l.to_string()).or_default() += 1;
+                }
+                if p.nontrivial {
+                    st.nontrivial += 1;
+                    if seen.len() < 4_000_000 && seen.insert(hash_json(&serde_json::to_string(&case).unwrap())) {
+                        st.distinct_nontrivial += 1;
+                    }
+                }
+                false
+            }
+            Verdict::Discard(_) => {
+                st.discard += 1;
+                false
+            }
+            Verdict::Fail(f) => {
+                if known.iter().any(|k| k.signature == f.sig) {
+                    st.known_excluded += 1;
+                    false
+                } else {
+                    st.failures += 1;
+                    dump(&st);
+                    eprintln!("FUZZ-FAIL property={} signature={} detail={}", P::ID, f.sig, f.msg);
+                    true
+                }
+            }
+        }
+    })
+}
+
+/// `verif-engine frombytes <Cnn> <file>`: decode a fuzzer input with the release engine, decide it (in a worker
+/// for isolated properties), shrink a failure along the strategy's own value tree, save the shrunk case as a
+/// JSON replay file and report it.  Exit 0 held / 1 violation / 2 undecodable.
+pub fn from_bytes<P: Property>(path: &Path) -> i32 {
+    if std::env::var("VERIF_PANIC_TRACE").is_err() {
+        install_quiet_panic_hook();
+    }
+    let _silence = if P::quiet_stdout() { Some(StdoutSilencer::new()) } else { None };
+    let data = match std::fs::read(path) {
+        Ok(d) => d,
+        Err(e) => {
+            eprintln!("cannot read {}: {e}", path.display());
+            return 2;
+        }
+    };
+    let known = load_known(P::ID);
+    let strategy = P::strategy(Tier::Quick);
+    let Some(mut tree) = tree_from_bytes::<P>(&strategy, &data) else {
+        eprintln!("NOTE property={} fuzz input {} does not decode to a case (rejected by the generator)", P::ID, path.display());
+        return 0;
+    };
+    let mut iso = P::isolated().map(|d| Isolator::new(P::ID, d));
+    let mut eval = |c: &P::Case| -> Verdict {
+        match iso.as_mut() {
+            Some(i) => i.check(c),
+            None => checked::<P>(c),
+        }
+    };
+    let first = match eval(&tree.current()) {
+        Verdict::Fail(f) => f,
+        Verdict::Pass(_) => {
+            eprintln!("NOTE property={} fuzz input {} passes on the release engine", P::ID, path.display());
+            return 0;
+        }
+        Verdict::Discard(r) => {
+            eprintln!("NOTE property={} fuzz input {} is discarded ({r}) on the release engine", P::ID, path.display());
+            return 0;
+        }
+    };
+    if let Some(k) = known.iter().find(|k| k.signature == first.sig) {
+        eprintln!("KNOWN-FINDING: property={} {} [signature {}]", P::ID, k.what, first.sig);
+        return 0;
+    }
+    // shrink: standard simplify / complicate walk, bounded
+    let budget = if P::isolated().is_some() { 48 } else { 2000 };
+    let mut best = (tree.current(), first);
+    let mut steps = 0;
+    'outer: while steps < budget && tree.simplify() {
+        loop {
+            steps += 1;
+            let c = tree.current();
+            match eval(&c) {
+                Verdict::Fail(f) if !known.iter().any(|k| k.signature == f.sig) => {
+                    best = (c, f);
+                    break;
+                }
+                _ => {
+                    if steps >= budget || !tree.complicate() {
+                        break 'outer;
+                    }
+                }
+            }
+        }
+    }
+    let (case, f) = best;
+    let p = save_failure(P::ID, &serde_json::to_value(&case).unwrap());
+    drop(_silence);
+    println!("VIOLATION property={} replay={}", P::ID, p.display());
+    println!("  signature: {}", f.sig);
+    println!("  detail: {}", f.msg);
+    println!("  found-by: coverage-guided fuzzing, input {}", path.display());
+    1
+}
